@@ -99,6 +99,10 @@ class GenericGen:
                 elif pres == "flatten" and ty.item.kind == "named":
                     f.flatten = True
                     uses[p] += "+flatten"
+            if form == "option" and kind == "named" and r.random() < 0.5:
+                # `#[ts(optional)] f: Option<P>`: `f?: P` - also when P itself is instantiated at an Option
+                f.optional = r.choice(["opt", "opt", "nullable"])
+                uses[p] += "+optional"
             if form == "bare" and kind == "named" and r.random() < 0.06:
                 f.inline = True
                 uses[p] += "+inline-bare"
@@ -209,6 +213,8 @@ class GenericGen:
                 ak, a = r.choice(arg_pool)
                 if k == 0:
                     ak, a = "user", self.leaves[(params.index(p)) % 3].name      # always one instantiation with arg-only leaves
+                if k == 1 and "+optional" in uses.get(p, ""):
+                    ak, a = "container", r.choice(["Option<i32>", "Option<Vec<String>>", f"Option<{self.leaves[0].name}>"])
                 if p in it.concrete:
                     # `concrete(U = X)` promises that U is X: only that instantiation is meaningful
                     ak, a = "concrete", it.concrete[p]
